@@ -56,6 +56,27 @@ func (vc *FnVC) call(st *State, c *ssa.CallCommon, instr *ssa.Call, rt types.Typ
 	if callee == nil {
 		fv := vc.val(st, c.Value)
 		vc.safety(st, "nil", vc.srcTextCall(c, instr)+".func", smtNot(sx("=", fv.S, "0")))
+		// a function stored in a struct field may have a (trusted) contract: funcfield:<Struct>.<field>
+		if key := funcFieldKey(c.Value); key != "" {
+			if u := vc.G.C.Units[key]; u != nil {
+				sig := c.Signature()
+				names := []string{"fn"}
+				vals := []*Val{fv}
+				for i := 0; i < sig.Params().Len(); i++ {
+					n := sig.Params().At(i).Name()
+					if n == "" || n == "_" {
+						n = fmt.Sprintf("arg%d", i)
+					}
+					names = append(names, n)
+					vals = append(vals, args[i])
+				}
+				var pkg *types.Package
+				if vc.fn.Pkg != nil {
+					pkg = vc.fn.Pkg.Pkg
+				}
+				return vc.applyContract(st, u, nil, pkg, sig, names, vals, rt, key, c, instr)
+			}
+		}
 		ws, all := vc.G.callWrites(vc.fn, c)
 		res := vc.havocCall(st, ws, all, rt, "dynamic call", args)
 		if par, ok := c.Value.(*ssa.Parameter); ok && vc.unit != nil {
@@ -151,6 +172,30 @@ func (vc *FnVC) call(st *State, c *ssa.CallCommon, instr *ssa.Call, rt types.Typ
 }
 
 var noResult = &Val{}
+
+// funcFieldKey: the contract key of a call through a function-typed struct field.
+func funcFieldKey(v ssa.Value) string {
+	var st types.Type
+	var idx int
+	switch x := v.(type) {
+	case *ssa.Field:
+		st, idx = x.X.Type(), x.Field
+	case *ssa.UnOp:
+		fa, ok := x.X.(*ssa.FieldAddr)
+		if !ok {
+			return ""
+		}
+		st, idx = fa.X.Type().Underlying().(*types.Pointer).Elem(), fa.Field
+	default:
+		return ""
+	}
+	nt := namedOf(st)
+	us, ok := st.Underlying().(*types.Struct)
+	if nt == nil || !ok || nt.Obj().Pkg() == nil {
+		return ""
+	}
+	return nt.Obj().Pkg().Path() + "::funcfield:" + nt.Obj().Name() + "." + us.Field(idx).Name()
+}
 
 // ifaceKey is the contract key of an interface method: <pkgpath>::iface:<Type>.<Method>.
 func ifaceKey(t types.Type, method string) string {
